@@ -143,7 +143,8 @@ def main():
             st = dict(options)
             st.update(step["settings"])
             mesh.redistributePoints(st)
-            mesh.calculateRZ()
+            if step.get("calculateRZ", True):
+                mesh.calculateRZ()
         mesh.geometry()
         gridfile = os.path.join(outdir, "grid.nc")
         if os.path.exists(gridfile):
